@@ -1,0 +1,43 @@
+//go:build verif
+
+// Contracts for govc (/verif): C01 "Accepted transactions conserve value within one asset". Comment-only file.
+// This file holds the SPEC VOCABULARY of C01 only. The function contracts that carry the property are clauses labelled [c01-*]
+// that were added IN PLACE to the (single) contracts of
+//   Validate, validateInputs, validateMint, validateDeposit, ReadUTXOLock (assumed)   -> zz_contracts_c05_verif.go
+//   validateOutputs                                                                   -> zz_contracts_c04_verif.go
+//   Integer.Add / Cmp / Sign                                                          -> zz_contracts_c33_verif.go (unchanged)
+
+package common
+
+// ───────────── the ledger as seen through the store interface ─────────────
+// "The amount / asset of the output the store holds under (hash, index)": uninterpreted functions of the store value, pinned by the
+// assumed contract of (UTXOLockReader).ReadUTXOLock ([S11-utxo-fn] in zz_contracts_c05_verif.go): a successful read returns exactly
+// that amount and asset. This is the assumption that reads of one store value are deterministic during one Validate call; with it the
+// sum of the input amounts is a well-defined function of (store, transaction).
+
+//@ uninterp StoreAmount(s any, h crypto.Hash, i mathint) mathint
+//@ uninterp StoreAsset(s any, h crypto.Hash, i mathint) crypto.Hash
+
+// ───────────── sums ─────────────
+
+//@ rec SumIn(s any, tx *Transaction, n int) mathint = n <= 0 ? 0 : SumIn(s, tx, n - 1) + StoreAmount(s, tx.Inputs[n - 1].Hash, tx.Inputs[n - 1].Index)
+//@ -- SumOut(outs, n): the sum of the first n output amounts — defined in zz_contracts_c17_verif.go (shared with C15/C17), used here as SumOut(tx.Outputs, n)
+//@ -- congruence theorem (ext_induct.go): the sums do not change when the heap changes elsewhere (Validate fills ver.hash, which lives in the
+//@ -- same heap component as the input hashes)
+//@ recframe SumIn
+//@ -- reclimit (ext_induct.go): one unfolding per existing term instead of the unbounded chain Sum(n), Sum(n-1), ... for a symbolic n
+//@ reclimit SumIn
+
+// ───────────── ordinary inputs ─────────────
+// OrdInput is what validateInputs itself tests (len(Genesis) == 0); on a decoded transaction (NilIfEmpty(Genesis), C06) it coincides
+// with PlainInput (Genesis == nil), which is what TransactionType tests.
+
+//@ spec OrdInput(in *Input) bool = in.Mint == nil && in.Deposit == nil && len(in.Genesis) == 0
+//@ spec OrdInputs(tx *Transaction) bool = forall j int :: 0 <= j && j < len(tx.Inputs) ==> OrdInput(tx.Inputs[j])
+//@ spec NoSpecialInputs(tx *Transaction) bool = forall j int :: 0 <= j && j < len(tx.Inputs) ==> tx.Inputs[j].Mint == nil && tx.Inputs[j].Deposit == nil
+//@ spec InputAssetIs(s any, in *Input, a crypto.Hash) bool = StoreAsset(s, in.Hash, in.Index) == a
+
+// The total input amount of an accepted transaction: the mint amount | the deposit amount | the sum of the referenced outputs.
+// ([c01-shape] of Validate says which case applies: a special input is the only input.)
+//@ spec TxInAmount(s any, tx *Transaction) mathint = tx.Inputs[0].Mint != nil ? val(tx.Inputs[0].Mint.Amount) :
+//@     (tx.Inputs[0].Deposit != nil ? val(tx.Inputs[0].Deposit.Amount) : SumIn(s, tx, len(tx.Inputs)))
